@@ -27,7 +27,7 @@ CHECK = {
         {"fn": P + "vC45_parallelStep", "replay": "model-only", "cases": {"ordered": [0, 1]}, "cover_optional": ("resequenced-run", "held-back")},
     ],
     "opts": {"unwind": 8, "substitute": SUB},
-    "timeout_ms": {"quick": 480000, "thorough": 1800000},
+    "timeout_ms": {"quick": 1500000, "thorough": 1800000},
     "stop": [k for k in SUB.keys() if "ReceiveContext" in k] + ["(*" + A + "PID).Shutdown"],
     "explanation": 'Per-stage one-step contracts (the fallback kernel named in DESIGN C45; the composed source->stages->sink BMC was not affordable: a 7-event history of ONE stage already ran >30 min here) plus one stage-local history. Real code executed symbolically: flowActor.Receive/tryFlushOutput/maybeRequestUpstream with the real transform closures built by Map, Filter, FlatMap, TryMap, Scan, Deduplicate, Buffer, Flatten (one job per kind); pullSourceActor.Receive/produce with the real pullFn of Of and Range; sinkActor.Receive/callOnComplete/PostStop with the real Collect closures; applyFusion + fusedFlowActor.Receive (TryMap fused with Filter); batchFlowActor[int].Receive/flush/maybeRequestUpstream (size trigger; one-step and scripted histories of 4-5 protocol-respecting messages from wiring); parallelMapActor[int,int].Receive/flushOrdered, container/heap and the real worker closure (ordered and unordered, 2 workers); queue.push/pop/len/empty. Each entry puts the stage into an ARBITRARY state satisfying a stated invariant (credit/demand ledgers, buffer contents, flags), delivers ONE arbitrary protocol message (request n / element / complete / error / cancel, elements only against outstanding credit) and asserts: emitted elements = first min(demand, pending) outputs of the reference list function, in order, consecutively numbered; ledgers; completion exactly when upstream completed and the buffer drained; a failing element => cancel upstream + that error downstream + stop; no stall (a live empty stage always has credit outstanding); invariant re-established. List semantics of a pipeline follows by composition under per-sender FIFO delivery (not itself encoded). Substitutions: ReceiveContext.Tell/Shutdown/Unhandled and actor.Tell -> recorders (harness/actor/zz_verif_vnet.go), stream.newStageID -> constant, ActorSystem.SpawnFromFunc/ScheduleOnce -> recorders (harness system), PID.Shutdown not traversed.',
     "bounds": {"InitialDemand": "1..4 (1..3 in the batch history), RefillThreshold in [0, InitialDemand)", "buffered outputs": "<= 3", "downstream demand": "<= 4", "request n": "1..4",
